@@ -415,9 +415,16 @@ class Machine:
                     if self.cond(c):
                         flag = {"scenarioComplete"}
                         break
-            # 2. records
+            # 2. records (those of the running sub-scenarios after the top-level ones)
             for r in range(top.get("records", 0)):
                 self.log.append((self.t, f"rec:r{r}"))
+            if main is not None:
+                stack = [x for x in main["subs"] if x["running"]]
+                while stack:
+                    inst = stack.pop(0)
+                    for r in range(inst["def"].get("records", 0)):
+                        self.log.append((self.t, f"rec:{inst['name']}.r{r}"))
+                    stack = [x for x in inst["subs"] if x["running"]] + stack
             # 3. monitors (those of a stopped scenario no longer run)
             if flag is None:
                 for m, g in monitors:
